@@ -163,6 +163,41 @@ def check_reuse_after_callback_fault(t, m, nodes, live, shape, assign, kind):
                     return
 
 
+_H = []
+
+
+def _anyhook():
+    """An AnyNode subclass whose attach hooks look at the node's own attributes (e.g. a sibling-uniqueness guard): the
+    attributes of an imported node must be there when it is attached."""
+    if not _H:
+        import anytree
+
+        class Guarded(anytree.AnyNode):
+            def _pre_attach(self, parent):
+                self.seen_pre = sorted(k for k in vars(self) if not k.startswith("_") and k != "seen_pre" and k != "seen_post")
+
+            def _post_attach(self, parent):
+                self.seen_post = len(vars(self))
+
+        _H.append(Guarded)
+    return _H[0]
+
+
+def _check_and_strip_hook_marks(node, d, is_root):
+    """The attach hooks of the 'anyhook' class recorded which attributes they saw; then remove the marks again."""
+    why = None
+    marks = vars(node)
+    if not is_root:
+        want = sorted(k for k in d if k != "children" and not k.startswith("_"))
+        if marks.get("seen_pre") != want:
+            why = "attributes %r were not (all) stored yet when the imported node was attached (hook saw %r)" % (want, marks.get("seen_pre"))
+    marks.pop("seen_pre", None)
+    marks.pop("seen_post", None)
+    for c, cd in zip(node.children, d.get("children", [])):
+        why = _check_and_strip_hook_marks(c, cd, False) or why
+    return why
+
+
 _C = []
 
 
@@ -252,18 +287,23 @@ def check_tree(t, shape, assign, kinds=("anynode", "node", "user"), only=None):
         # import side -----------------------------------------------------------------------
         d = DictExporter().export(nodes[0])
         for variant, dd in (("exported", d), ("with empty children lists", add_empty_children(d))):
-            for nodecls_name in ("anynode", "node", "user", "container"):
+            for nodecls_name in ("anynode", "node", "user", "container", "anyhook"):
                 if nodecls_name == "node" and kind != "node":
                     continue  # Node needs a name in every dictionary
                 import anytree
 
-                nodecls = {"anynode": anytree.AnyNode, "node": anytree.Node, "user": _user(), "container": _container()}[nodecls_name]
+                nodecls = {"anynode": anytree.AnyNode, "node": anytree.Node, "user": _user(), "container": _container(),
+                           "anyhook": _anyhook()}[nodecls_name]
                 before = copy.deepcopy(dd)
                 root = DictImporter(nodecls=nodecls).import_(dd)
                 t.c["evaluations"] += 1
                 t.c["imports"] += 1
                 why = None
-                if dd != before:
+                if nodecls_name == "anyhook" and root is not None:
+                    why = _check_and_strip_hook_marks(root, dd, True)
+                if why:
+                    pass
+                elif dd != before:
                     why = "import_ modified its argument"
                 elif real_tree(root) != ref_tree_of_dict(before):
                     why = "imported tree differs from the dictionary (shape, order or attributes)"
